@@ -190,16 +190,12 @@ def _alloc(sh, case):
             if case["zero_cost"] and 0.0 not in ct:
                 continue
             cl = np.array(ct, dtype=float)
+            zc = "zero-cost-level" if 0.0 in ct else "positive-costs"
+            a_v, a_c = vl.copy(), cl.copy()  # the caller's arrays, handed over for every rmse and compared afterwards
             for rmse in RMSES:
                 sh.count("evaluations")
-                a_v, a_c = vl.copy(), cl.copy()
                 with np.errstate(all="ignore"):
                     N = np.asarray(crit.compute_mc_paths(rmse, a_v, a_c))
-                zc = "zero-cost-level" if 0.0 in ct else "positive-costs"
-                if not (np.array_equal(a_v, vl) and np.array_equal(a_c, cl)):  # the engine goes on using its vl, cl
-                    sh.violation(f"C06:alloc:argument-array-modified:{zc}",
-                                 f"compute_mc_paths({rmse}, {vl.tolist()}, {cl.tolist()}) left vl={a_v.tolist()}, cl={a_c.tolist()} in the "
-                                 f"caller's arrays", None)
                 if N.shape != vl.shape or not np.issubdtype(N.dtype, np.integer) or np.any(N < 0):
                     sh.violation(f"C06:alloc:sample-sizes-not-non-negative-integers:{zc}",
                                  f"compute_mc_paths({rmse}, {vl.tolist()}, {cl.tolist()}) = {N.tolist()}", None)
@@ -215,6 +211,10 @@ def _alloc(sh, case):
                                  f"rmse={rmse}, vl={vl.tolist()}, cl={cl.tolist()}: N={N.tolist()}, sum V/N = {est:.6g} > "
                                  f"rmse^2 - (accepted bias)^2 = {share:.6g} rmse^2 = {budget:.6g}", {"share": share})
                 worst = max(worst, est / budget if budget else 0.0)
+            if not (np.array_equal(a_v, vl) and np.array_equal(a_c, cl)):  # the engine goes on using its vl, cl
+                sh.violation(f"C06:alloc:argument-array-modified:{zc}",
+                             f"compute_mc_paths(rmse, {vl.tolist()}, {cl.tolist()}) for rmse in {RMSES} left vl={a_v.tolist()}, "
+                             f"cl={a_c.tolist()} in the caller's arrays", None)
     after = probe()
     if after != before:  # the allocation is a function of its arguments: the calls in between must not change it
         sh.violation("C06:alloc:sample-sizes-depend-on-earlier-calls",
@@ -846,7 +846,7 @@ SECOND_MENU = [("same-config", None), ("same-engine", None), ("deepcopy", None),
                ("engine-deepcopy", None), ("default", None), ("none", None),
                ("explicit", "regressed"), ("setters", "regressed"), ("setters", "given"), ("explicit", "alpha-only"),
                ("setters", "alpha-regressed")]
-THIRD_MENU = [("same-config", None), ("same-engine", None), ("dill", None), ("default", None), ("setters", "regressed")]
+THIRD_MENU = [("same-config", None), ("same-engine", None), ("default", None), ("setters", "regressed")]
 
 
 def history_scenarios(thorough):
